@@ -1789,7 +1789,45 @@ impl<'a> Gen<'a> {
         //            `sink` (what they read is the accumulator of an earlier store: not modelled)
         self.st_reset();
         let wo = *self.rng.pick(&self.hw[2..4].to_vec());
-        match self.rng.below(12) {
+        match self.rng.below(14) {
+            13 => {
+                // an explicit load of what the accumulator already holds (it has just been compared),
+                // followed by a store and another load: redundant as data flow, still prescribed
+                let g = self.g8.iter().cloned().find(|v| !self.is_const(*v) && !self.is_protected(&LV::Var(*v))).unwrap_or(self.g8[0]);
+                if self.is_const(g) || self.is_protected(&LV::X) {
+                    return Stmt::Strobe(wo);
+                }
+                let k = self.rng.below(4) as i32;
+                let op = if self.rng.chance(1, 2) { BinOp::Eq } else { BinOp::Ne };
+                let body = vec![
+                    Stmt::Load(Expr::Lv(LV::Var(g))),
+                    Stmt::Store(LV::Deref(wo)),
+                    Stmt::Expr(Expr::Assign(LV::X, Box::new(Expr::Num(2)))),
+                ];
+                self.forget_xy();
+                Stmt::If(Expr::Bin(op, Box::new(Expr::Lv(LV::Var(g))), Box::new(Expr::Num(k))), Box::new(Stmt::Block(body)), None)
+            }
+            12 => {
+                // an explicit load whose operand has work postponed to the end of the statement
+                // (a post-increment, the restore of a saved Y), as the unbraced body of an if: the
+                // postponed work belongs to the statement, not to what follows the if
+                if self.is_protected(&LV::X) || self.is_protected(&LV::Y) || self.arrs.is_empty() {
+                    return Stmt::Strobe(wo);
+                }
+                let a = self.arrs[0];
+                let k = self.rng.below(6) as i32;
+                let (pre, operand) = match self.rng.below(3) {
+                    0 => (Stmt::Expr(Expr::Assign(LV::X, Box::new(Expr::Num(k)))), Expr::Lv(LV::Idx(a, Box::new(Expr::IncDec { lv: LV::X, post: true, inc: true })))),
+                    1 => (Stmt::Expr(Expr::Assign(LV::Y, Box::new(Expr::Num(k)))), Expr::Lv(LV::Idx(a, Box::new(Expr::IncDec { lv: LV::Y, post: true, inc: true })))),
+                    _ => {
+                        let g = self.g8.iter().cloned().find(|v| !self.is_const(*v)).unwrap_or(self.g8[0]);
+                        (Stmt::Expr(Expr::Assign(LV::Var(g), Box::new(Expr::Num(k)))), Expr::Lv(LV::Idx(a, Box::new(Expr::Lv(LV::Var(g))))))
+                    }
+                };
+                let c = self.cond(0);
+                self.forget_xy();
+                Stmt::Block(vec![pre, Stmt::If(c, Box::new(Stmt::Load(operand)), None)])
+            }
             11 => {
                 // register transfers between two markers: load(X) = TXA, store(Y) = TAY, ...
                 // (each pair copies one register into the other; X and Y must not be loop counters)
@@ -2152,6 +2190,27 @@ impl<'a> Gen<'a> {
         } else {
             None
         };
+        // accumulator context: the caller compares a variable with a constant and calls in the
+        // fall-through, the body starts by copying that variable and testing the copy.  Inlined,
+        // the peephole pass knows A still holds the variable when the body starts
+        let accctx: Option<(VarId, i32)> = if regctx.is_none() && self.rng.chance(1, 3) {
+            let cands: Vec<VarId> = self.g8.iter().cloned().filter(|v| !self.is_const(*v)).collect();
+            if cands.len() >= 3 {
+                let g = cands[0];
+                let d = cands[1];
+                let t = cands[2];
+                let c = self.rng.range(1, 5) as i32;
+                let k = self.const8();
+                let lead = f0.body.iter().take_while(|s| matches!(s, Stmt::Decl(..))).count();
+                f0.body.insert(lead, Stmt::If(Expr::Lv(LV::Var(d)), Box::new(Stmt::Expr(Expr::Assign(LV::Var(t), Box::new(k)))), None));
+                f0.body.insert(lead, Stmt::Expr(Expr::Assign(LV::Var(d), Box::new(Expr::Lv(LV::Var(g))))));
+                Some((g, c))
+            } else {
+                None
+            }
+        } else {
+            None
+        };
         if self.rng.chance(1, 3) {
             let s = self.long_if();
             let at = f0.body.len().saturating_sub(1);
@@ -2187,6 +2246,14 @@ impl<'a> Gen<'a> {
             for st in extra {
                 let v = (*c + self.rng.range(0, 2) as i32 - 1) & 0xff;
                 with.push(Stmt::Block(vec![Stmt::Expr(Expr::Assign(reg.clone(), Box::new(Expr::Num(v)))), st]));
+            }
+            extra = with;
+        }
+        if let Some((g, c)) = &accctx {
+            let mut with = Vec::new();
+            for st in extra {
+                let op = if self.rng.chance(3, 4) { BinOp::Eq } else { BinOp::Ne };
+                with.push(Stmt::If(Expr::Bin(op, Box::new(Expr::Lv(LV::Var(*g))), Box::new(Expr::Num(*c))), Box::new(Stmt::Block(vec![st])), None));
             }
             extra = with;
         }
